@@ -3,7 +3,8 @@
    configurations carry one fault each: a cancelling or raising callback, a read
    failure, a refused thread start. *)
 From Coq Require Import Lia.
-From Torf Require Import Base Pipeline PipelineProofs FlowProofs ThreadProofs DeadlockProofs PipeExplore PipeExploreProofs PipeConfigs.
+From Coq Require Import Permutation.
+From Torf Require Import Base Pipeline PipelineProofs FlowProofs ThreadProofs DeadlockProofs ConservationProofs PipeExplore PipeExploreProofs PipeConfigs.
 Open Scope Z_scope.
 
 (* the callback cancels from the second piece on (3 pieces): under every schedule the call returns
@@ -63,6 +64,19 @@ Theorem C04_no_deadlock_unbounded : forall c s,
   (1 <= cf_hashers c)%nat -> reach c s -> s_mdone s = false -> options c s <> [].
 Proof. exact no_deadlock. Qed.
 Print Assumptions C04_no_deadlock_unbounded.
+
+(* UNBOUNDED: no piece is ever lost between the reader and the collector.  In every state reachable under any
+   schedule -- any number of hashers and pieces, any callback plan (incl. cancelling and raising ones), read
+   fault, refused additional hasher, out-of-memory handling, any clock -- the pieces the reader has handed over so
+   far (0 .. s_ridx s - 1) are, each exactly once, in the piece queue, in the hands of a hasher, in the hash queue
+   or with the collector ([indices s] lists these places).  Invariant (proofs/ConservationProofs.v): the number
+   of piece indexes in those places equals the reader's counter, and a hasher that is not running holds
+   nothing; with "no index twice" and "every index below the counter" (FlowProofs.v) this is a permutation. *)
+Theorem C04_no_piece_lost_unbounded : forall c s,
+  (1 <= cf_hashers c)%nat -> reach c s ->
+  Permutation (indices s) (map Z.of_nat (seq 0 (Z.to_nat (s_ridx s)))).
+Proof. exact no_piece_lost. Qed.
+Print Assumptions C04_no_piece_lost_unbounded.
 
 (* refuted on the faithful model (known findings): if the start of the janitor or of the first hasher
    is refused, the call raises RuntimeError while the reader (and hashers) keep running *)
